@@ -34,7 +34,8 @@ def main(tier):
     n_sets = 60 if thorough else 8
     stats = dict(fragment_sets=0, fragments_min=10 ** 9, fragments_max=0, lsh_runs=0, lsh_pairs=0, identical_pairs_checked=0,
                  rows_gt_hashes_runs=0, batch_runs=0, truncated_runs=0, model_lsh=0, model_batch=0, bandkey_fragments=0,
-                 exhaustive_pairs=0, cli_lsh_runs=0, big_sets=0)
+                 exhaustive_pairs=0, cli_lsh_runs=0, big_sets=0, ratio_sets=0, tiny_sets=0, prefilter_pairs_both_orders=0, prefilter_classes={},
+                 ratio_pairs_by_batch={}, model_prefilter_cells=0, lsh_fallback_runs=0)
     if not ck.go_ok:
         ck.finish()
     import time
@@ -51,17 +52,56 @@ def main(tier):
                    LargeProjectSize=rng.choice([500, 10, 0]))
         files = sorted(texts.items())
         rng.shuffle(files)
-        return dict(texts=texts, files=files, cfg=cfg, lsh=[rand_lsh(rng) for _ in range(6 if thorough else 4)], big=big)
+        if big:
+            # members of the size-ratio family more than 50 positions apart: (2,5) Size 5/8 inside (1.5, 5/3), smaller first;
+            # (6,2) Size 9/5 inside (5/3, 2), larger first -- in different batches for every batch size the public entry point picks
+            fam = lambda ks: "\n".join(["import os", ""] + sum([cc.try_function("load%d" % k, k) + ["", ""] for k in ks], [])) + "\n"
+            files = [("ratio_front.py", fam([2, 6]))] + files + [("ratio_tail.py", fam([5, 2]))]
+            texts = dict(files)
+        return dict(texts=texts, files=files, cfg=cfg, lsh=[rand_lsh(rng) for _ in range(6 if thorough else 4)], big=big, kind="big" if big else "project")
+
+    def make_ratio_set(k):
+        """The size-ratio / line-ratio lattice (clonecommon.gen_ratio_project) under default-like thresholds."""
+        files, meta = cc.gen_ratio_project(rng, pads=(k % 2 == 0), fillers=k % 3, per_file=None if k else 1)
+        # 50 and 100 exceed the fragment count (one batch = the unbatched loop, exercised by the other sets)
+        batch_sizes = [1, 2, 3, 7]
+        cfg = dict(MinLines=rng.choice([3, 5]), MinNodes=rng.choice([4, 5]), MaxEditDistance=rng.choice([0, 0, 50.0]),
+                   ReduceBoilerplateSimilarity=rng.random() < 0.5, BoilerplateMultiplier=0.1, SkipDocstrings=True,
+                   SimilarityThreshold=rng.choice([0, 0.65]), Type1Threshold=rng.choice([0.98, 0.85]), Type2Threshold=0.75, Type3Threshold=0.7,
+                   Type4Threshold=rng.choice([0.65, 0.5]), MaxClonePairs=10000, BatchSizeThreshold=rng.choice([50, 3, 2]),
+                   BatchSizeLarge=rng.choice([100, 7, 0]), BatchSizeSmall=rng.choice([50, 2, 0]), LargeProjectSize=rng.choice([500, 10, 0]))
+        return dict(texts=dict(files), files=files, cfg=cfg, lsh=[rand_lsh(rng) for _ in range(4 if thorough else 2)], big=False, kind="ratio", meta=meta,
+                    batch_sizes=batch_sizes)
+
+    def make_tiny_set(n_frag):
+        """0 or 1 fragment: DetectClonesWithLSH falls back to the standard path (clone_detector.go:655)."""
+        src = "import os\n\n" + ("\n".join(cc.straight_function("only", 9)) + "\n" if n_frag else "value = 1\n")
+        cfg = dict(MinLines=3, MinNodes=9 if n_frag else 4, MaxEditDistance=0, SkipDocstrings=True, SimilarityThreshold=0, Type1Threshold=0.85, Type2Threshold=0.75,
+                   Type3Threshold=0.7, Type4Threshold=0.65, MaxClonePairs=10000, BatchSizeThreshold=50, BatchSizeLarge=0, BatchSizeSmall=0, LargeProjectSize=0)
+        return dict(texts={"only.py": src}, files=[("only.py", src)], cfg=cfg, lsh=[rand_lsh(rng) for _ in range(2)], big=False, kind="tiny")
 
     n_big = 8 if thorough else 1
     # big sets: 51..64 fragments so that the public entry point batches by itself (n > BatchSizeThreshold = 50)
-    cands = [make_set(True) for _ in range(5 * n_big)]
-    probe = [cc.norm(x) for x in lib.driver([cc.driver_req(s["files"], s["cfg"], table="none") for s in cands], timeout=1800)]
+    cands = [make_set(True) for _ in range(8 * n_big)]
+    # fragment counts: one request per file (extraction is per file; this keeps the probe's pair comparisons inside single files)
+    preqs = [(ci, cc.driver_req([f], s["cfg"], table="none")) for ci, s in enumerate(cands) for f in s["files"]]
+    pres = [cc.norm(x) for x in lib.driver([r for _, r in preqs], timeout=1800)]
+    probe = [dict(frags=[]) for _ in cands]
+    for (ci, _), r in zip(preqs, pres):
+        if "error" in r:
+            probe[ci]["error"] = r["error"]
+        else:
+            probe[ci]["frags"] += r["frags"]
     sized = sorted((((0 if 51 <= len(r.get("frags", [])) <= 70 else 1), abs(len(r.get("frags", [])) - 56), i) for i, r in enumerate(probe) if "error" not in r))
     sets = [cands[i] for _, _, i in sized[:n_big]]
-    sets += [make_set(False) for _ in range(n_sets - n_big)]
-    reqs = [cc.driver_req(s["files"], s["cfg"], batch_sizes=[1, 7, 100] if s["big"] else BATCH_SIZES, lsh=s["lsh"][:2] if s["big"] else s["lsh"],
+    n_ratio = 6 if thorough else 2
+    sets += [make_ratio_set(k) for k in range(n_ratio)]
+    sets += [make_tiny_set(1), make_tiny_set(0)]
+    sets += [make_set(False) for _ in range(n_sets - n_big - 1)]
+    reqs = [cc.driver_req(s["files"], s["cfg"], batch_sizes=[1, 7, 100] if s["big"] else s.get("batch_sizes", BATCH_SIZES), lsh=s["lsh"][:2] if s["big"] else s["lsh"],
                           table="upper" if (s["big"] or i % 2) else "full") for i, s in enumerate(sets)]
+    if os.environ.get("C09_DUMP"):
+        json.dump([dict(r, kind=s_["kind"]) for r, s_ in zip(reqs, sets)], open(os.environ["C09_DUMP"], "w"))
     results = [cc.norm(x) for x in lib.driver(reqs, timeout=1800)]
     lib.log("driver %.1fs" % (time.time() - t0))
 
@@ -78,6 +118,9 @@ def main(tier):
         stats["fragments_min"] = min(stats["fragments_min"], n)
         stats["fragments_max"] = max(stats["fragments_max"], n)
         stats["big_sets"] += n > 50
+        stats["ratio_sets"] += s["kind"] == "ratio"
+        stats["tiny_sets"] += s["kind"] == "tiny"
+        stats["lsh_fallback_runs"] += len(res["lsh"]) if n <= 1 else 0
         stats["exhaustive_pairs"] += len(res["exh_raw"])
         cfg = s["cfg"]
         maxp = cfg["MaxClonePairs"]
@@ -96,7 +139,7 @@ def main(tier):
             stats["rows_gt_hashes_runs"] += rows_eff > hashes_eff
             got = pset(lr["pairs"], oriented=True)
             stats["lsh_pairs"] += len(got)
-            if n > 1:
+            if True:
                 inv = got - exh
                 if inv:
                     p = sorted(inv)[0]
@@ -156,6 +199,66 @@ def main(tier):
                     ck.violation("truncated batched detection (batch size %s, limit %d) does not keep the most similar pairs: kept %d, lowest kept %r, highest dropped %r"
                                  % (bs, maxp, len(got), kept[:1], dropped[-1:]), dict(replay, batch_size=bs))
 
+        # ---------------- LSH against BATCHED exhaustive detection (the exhaustive comparison of the public entry point for larger inputs)
+        if not truncated:
+            for lr in res["lsh"]:
+                lp, got = lr["params"], pset(lr["pairs"])
+                for bs, ps in list(res["batched"].items()) + [("public", res["detect"])]:
+                    extra = got - pset(ps)
+                    if extra:
+                        p = sorted(extra)[0]
+                        ck.violation("LSH (bands %d rows %d hashes %d threshold %r) reports a pair that batched exhaustive detection (batch size %s) does not report: "
+                                     "fragments %d,%d sim %r type %d" % (lp["bands"], lp["rows"], lp["hashes"], lp["threshold"], bs, p[0], p[1], p[2], p[4]),
+                                     dict(replay, lsh=lp, batch_size=bs, frag_a=frags[p[0]], frag_b=frags[p[1]]))
+                        break
+
+        # ---------------- pre-filters of shouldCompareFragments in both argument orders
+        # The exhaustive loop calls compareFragments(earlier, later); the batch loop with batch size 1 calls it as (later, earlier)
+        # for every pair.  For pairs that clear every other gate the reported pairs show what the filter answered in each order.
+        s["pre"] = {}
+        if not truncated and "1" in res["batched"] and reqs[si]["table"] != "none" and n > 1:
+            t4 = cfg["Type4Threshold"]
+            thr = cfg["SimilarityThreshold"] if cfg["SimilarityThreshold"] > 0 else t4
+            fwd_set = {(p["i"], p["j"]) for p in res["exh_raw"]}
+            bwd_set = {(p["i"], p["j"]) for p in res["batched"]["1"]}
+            asym = None
+            for c in res["table"]:
+                i, j = c["i"], c["j"]
+                if i >= j or cc.overlap(frags[i], frags[j]) or not c["gate"] or c["jac"] < 0.5 or c["sim"] < t4 or c["sim"] < thr:
+                    continue
+                if cfg["MaxEditDistance"] > 0 and c["dist"] > cfg["MaxEditDistance"]:
+                    continue
+                a, b = frags[i], frags[j]
+                sc, lc = cc.size_class(a["size"], b["size"]), cc.line_class(a["lines"], b["lines"])
+                fwd, bwd = (i, j) in fwd_set, (j, i) in bwd_set
+                spec = not (cc.size_prefilter_rejects(a["size"], b["size"]) or cc.line_prefilter_rejects(a["lines"], b["lines"]))
+                s["pre"][(i, j)] = (fwd, bwd, spec)
+                stats["prefilter_pairs_both_orders"] += 1
+                first = "smaller-first" if a["size"] < b["size"] else "larger-first" if a["size"] > b["size"] else "equal"
+                if sc not in ("le-1.5", "gt-2"):
+                    key = "size %s %s" % (sc, first)
+                    stats["prefilter_classes"][key] = stats["prefilter_classes"].get(key, 0) + 1
+                    for bs in BATCH_SIZES:
+                        if str(bs) in res["batched"] and bs > 1:
+                            k2 = "bs%d %s %s" % (bs, "same-batch" if i // bs == j // bs else "cross-batch", first)
+                            stats["ratio_pairs_by_batch"][k2] = stats["ratio_pairs_by_batch"].get(k2, 0) + 1
+                if lc != "lt-2":
+                    key = "lines %s %s" % (lc, "shorter-first" if a["lines"] < b["lines"] else "longer-first")
+                    stats["prefilter_classes"][key] = stats["prefilter_classes"].get(key, 0) + 1
+                if fwd != bwd and asym is None:
+                    asym = (i, j, fwd, bwd, sc, lc)
+            if asym:
+                i, j, fwd, bwd, sc, lc = asym
+                ck.violation("shouldCompareFragments answers differently for the two argument orders of one fragment pair, so the pair is reported or not "
+                             "depending on whether the two fragments share a batch: %s:%d-%d (Size %d, %d lines) and %s:%d-%d (Size %d, %d lines), similarity %r; "
+                             "compared as (earlier, later) by the exhaustive loop: %s; compared as (later, earlier) by the batch loop with batch size 1: %s "
+                             "[size ratio class %s, line ratio class %s]" % (
+                                 frags[i]["file"], frags[i]["start"], frags[i]["end"], frags[i]["size"], frags[i]["lines"],
+                                 frags[j]["file"], frags[j]["start"], frags[j]["end"], frags[j]["size"], frags[j]["lines"],
+                                 [c["sim"] for c in res["table"] if (c["i"], c["j"]) == (i, j)][0],
+                                 "reported" if fwd else "not reported", "reported" if bwd else "not reported", sc, lc),
+                             dict(replay, frag_a=frags[i], frag_b=frags[j], batch_size=1))
+
         # ---------------- model
         if n == 0:
             continue
@@ -174,8 +277,11 @@ def main(tier):
         body += "Definition tabs0 := Build_tables cells gates [].\n"
         body += "Eval vm_compute in (run_detect tabs0 c0 fs0).\n"
         evals.append(("detect", None))
+        if s["pre"] and n <= 30:
+            body += "Eval vm_compute in (run_prefilter fs0).\nEval vm_compute in (run_prefilter_spec fs0).\n"
+            evals += [("prefilter", None), ("prefilter_spec", None)]
         if not truncated:
-            for bs in ([7] if n > 30 else BATCH_SIZES):
+            for bs in ([7] if n > 30 else s.get("batch_sizes", BATCH_SIZES)):
                 body += "Eval vm_compute in (run_batched tabs0 c0 fs0 %s).\n" % cZ(bs)
                 evals.append(("batched", bs))
         vals = cc.Coder()
@@ -216,6 +322,30 @@ def main(tier):
                     if impl != mod:
                         ck.broken_ties.append("model band keys differ from computeBandKeys for %s: impl %s model %s" % (lr["params"], impl[0][:2], mod[0][:2] if mod else mod))
                     continue
+                if kind == "prefilter":
+                    # the model filter in both argument orders against what the implementation did in each order
+                    mp = {(e[0], e[1]): (e[2], e[3]) for e in v}
+                    stats["model_prefilter_cells"] += 2 * len(mp)
+                    bad = [(k, x) for k, x in mp.items() if x[0] != x[1]]
+                    if bad:
+                        ck.broken_ties.append("model should_compare is not symmetric on %s" % (bad[:2],))
+                    for (i, j), (fwd, bwd, spec) in s["pre"].items():
+                        if (i, j) in mp and mp[(i, j)] != (fwd, bwd):
+                            ck.broken_ties.append("model should_compare (a,b)/(b,a) = %s but shouldCompareFragments answered %s for fragments %d,%d "
+                                                  "(sizes %d/%d lines %d/%d)" % (mp[(i, j)], (fwd, bwd), i, j, res["frags"][i]["size"], res["frags"][j]["size"],
+                                                                                 res["frags"][i]["lines"], res["frags"][j]["lines"]))
+                            break
+                    continue
+                if kind == "prefilter_spec":
+                    fr = res["frags"]
+                    for e in v:
+                        i, j = e[0], e[1]
+                        py = not (cc.size_prefilter_rejects(fr[i]["size"], fr[j]["size"]) or cc.line_prefilter_rejects(fr[i]["lines"], fr[j]["lines"]))
+                        if py != e[2]:
+                            ck.broken_ties.append("harness reading of the pre-filters differs from Clone/PairsPre.v prefilter_spec on sizes %d/%d lines %d/%d"
+                                                  % (fr[i]["size"], fr[j]["size"], fr[i]["lines"], fr[j]["lines"]))
+                            break
+                    continue
                 m = {cc.upair(a, b, t) for a, b, t in cc.pairs_of_model(v)}
                 if kind == "detect":
                     impl = {cc.upair(p["i"], p["j"], p["type"]) for p in res["detect"]}
@@ -231,6 +361,18 @@ def main(tier):
                 if impl != m:
                     ck.broken_ties.append("model %s(%s) differs from the implementation: model-only %s impl-only %s (cfg %s)" % (
                         kind, arg if kind != "lsh" else res["lsh"][arg]["params"], sorted(m - impl)[:3], sorted(impl - m)[:3], s["cfg"]))
+
+    # ---------------- the lattice must have been reached (otherwise the run decides nothing about the pre-filters' argument order)
+    if not any(s.get("res") is None for s in sets):
+        need = ["size %s %s" % (c, o) for c in ("in-(1.5,5/3)", "in-(5/3,2)") for o in ("smaller-first", "larger-first")]
+        missing = [k for k in need if not stats["prefilter_classes"].get(k)]
+        missing += [c for c in ("size edge-5/3", "size edge-2", "lines edge-2 ", "lines edge-2+1") if not any(k.startswith(c) for k in stats["prefilter_classes"])]
+        missing += ["bs%d cross-batch %s" % (bs, o) for bs in (2, 3, 7) for o in ("smaller-first", "larger-first")
+                    if not stats["ratio_pairs_by_batch"].get("bs%d cross-batch %s" % (bs, o))]
+        if not any(k.endswith(o) and "same-batch" in k for k in stats["ratio_pairs_by_batch"] for o in ("smaller-first", "larger-first")):
+            missing.append("a same-batch pair with a Size ratio in (1.5, 2)")
+        if missing:
+            ck.broken_ties.append("generator: the size/line ratio lattice of the pre-filters was not reached: %s" % missing)
 
     # ---------------- command line: [clones] lsh_enabled = true / false on the same project
     base = lib.fresh_dir("c09")
